@@ -27,6 +27,20 @@ func main() {
 		os.Exit(2)
 	}
 	name := os.Args[1]
+	if name == "c20child" {
+		if err := c20Child(os.Args[2:]); err != nil {
+			fmt.Fprintln(os.Stderr, "c20child error:", err)
+			os.Exit(3)
+		}
+		return
+	}
+	if name == "extract" {
+		if err := runExtract(os.Args[2:]); err != nil {
+			fmt.Fprintln(os.Stderr, "extract error:", err)
+			os.Exit(3)
+		}
+		return
+	}
 	fs := flag.NewFlagSet(name, flag.ExitOnError)
 	out := fs.String("out", "", "report file")
 	tier := fs.String("tier", "quick", "quick|thorough")
